@@ -71,6 +71,18 @@ Definition lit_binop (op : binop) (a b : lit) : res lit :=
   | _, _, _ => Fail Stuck
   end.
 
+(* read-only expressions over one field, as the bodies of the `neg_f / sum_f / pos_f / not_f / cat_f` methods *)
+Inductive rokind := RNeg | RSum | RPos | RNot | RCat.
+Definition lit_ro (k : rokind) (a : lit) : res lit :=
+  match k, a with
+  | RNeg, LInt x => if in_i32 (- x)%Z then Ok (LInt (- x)%Z) else Fail Range        (* -self.f *)
+  | RSum, LInt x => if in_i32 (x + x)%Z then Ok (LInt (x + x)%Z) else Fail Range    (* self.f + self.f *)
+  | RPos, LInt x => Ok (LBool (0 <? x)%Z)                                           (* self.f > 0 *)
+  | RNot, LBool b => Ok (LBool (negb b))                                            (* !self.f *)
+  | RCat, LStr x => Ok (LStr x)                                                     (* self.f + "" *)
+  | _, _ => Fail Stuck
+  end.
+
 (* a class: its fields, the number of constructor arguments, and the constructor body, a sequence of
    `self.f = <argument k | literal | []>` *)
 Inductive init := IParam (k : nat) | IConst (l : lit) | IEmpty.
@@ -95,7 +107,8 @@ Inductive meth :=
 | MSetBare (f : fld)    (* fn setb_f(self, v: T) { modify f = v } *)
 | MPush (f : fld)       (* fn push_f(self, x: E) { self.f.push(x) } *)
 | MPoke (f g : fld)     (* fn poke_f_g(self, d: T) { self.f.g = self.f.g + d }                     object in a field *)
-| MDup (fs : list fld). (* fn dup(self) -> Self { return Self(self.fa, self.fb, ..) }             constructs inside a method *)
+| MDup (fs : list fld)  (* fn dup(self) -> Self { return Self(self.fa, self.fb, ..) }             constructs inside a method *)
+| MRo (k : rokind) (f : fld). (* fn neg_f(self) -> int { return -self.f } and the like: reads, computes, writes NOTHING *)
 
 (* what is done with the result of a method call *)
 Inductive rmode := RBind (dst : var) | RPrint | RDrop.
@@ -261,6 +274,12 @@ Definition gmeth (ct : ctab) (s : S) (self : V) (m : meth) (args : list V) : res
     do o <- i_fread I s self f;
     do r <- gupd s o g Add d;
     Ok (fst r, None)
+  | MRo k f, [] =>
+    do v <- i_fread I s self f;
+    match i_scalar I v with
+    | Some x => do r <- lit_ro k x; Ok (s, Some (i_lit I r))
+    | None => Fail Stuck
+    end
   | MDup fs, [] =>
     do vs <- gfreads s self fs;
     do k <- i_cls I s self;
